@@ -25,6 +25,7 @@ RULE = ('cases = (catalogue entry, D, P) and (program, D, P=3, forward|reverse);
 ASSUMPTIONS = ['the single-direction evaluation is the reference (its correctness is C01-C08)']
 TOL = 1e-12
 DPS = [(1, 2), (3, 2), (3, 3), (4, 3)]
+MANY_DP = {'quick': [(2, 40)], 'thorough': [(2, 40), (3, 33), (2, 65), (2, 100)]}
 CHUNK_E = 10
 CHUNK_P = 60
 
@@ -274,6 +275,46 @@ def run_mixed(u, out):
             if why:
                 out['fails'].append({'sig': 'C11|mixed structure|%s|reverse' % name.split(' ')[0], 'case': dict(case, mode='reverse'),
                                      'detail': {'direction': p, 'why': why}})
+    # eigh1 (the relaxed eigenproblem: block structure per direction) called directly, forward and pullback
+    for name, f, data, judge in mixed_cases(u['seed']):
+        if not name.startswith('eigh '):
+            continue
+        D, P = data.shape[:2]
+        case = {'kind': 'mixed', 'name': 'eigh1 ' + name[5:], 'D': D, 'P': P, 'seed': u['seed']}
+        out['evals'] += 1
+        out['keys'].append('eigh1 ' + name + '|D=%d' % D)
+        try:
+            A = UTPM(data.copy())
+            L, Q, b = UTPM.eigh1(A)
+            Lbar = UTPM(AD.dense(L.data.shape, u['seed'], 61))
+            Qbar = UTPM(AD.dense(Q.data.shape, u['seed'], 62))
+            Abar = UTPM.pb_eigh1(UTPM(Lbar.data.copy()), UTPM(Qbar.data.copy()), None, A, L, Q, b)
+        except Exception as ex:
+            out['counters']['eigh1_raises'] = out['counters'].get('eigh1_raises', 0) + 1
+            continue
+        if len(b) != P:
+            out['fails'].append({'sig': 'C11|mixed structure|eigh1|block lists', 'case': case, 'detail': {'len': len(b), 'P': P}})
+            continue
+        for p in range(P):
+            try:
+                A1 = UTPM(data[:, p:p + 1].copy())
+                L1, Q1, b1 = UTPM.eigh1(A1)
+                Abar1 = UTPM.pb_eigh1(UTPM(Lbar.data[:, p:p + 1].copy()), UTPM(Qbar.data[:, p:p + 1].copy()), None, A1, L1, Q1, b1)
+            except Exception as ex:
+                out['fails'].append({'sig': 'C11|mixed structure|eigh1|single direction raises', 'case': case, 'detail': {'direction': p, 'error': str(ex)[:160]}})
+                break
+            bad = None
+            if len(b1) != 1 or not np.array_equal(np.asarray(b1[0]), np.asarray(b[p])):
+                bad = 'block structure'
+            for nm, full, one in (('L', L.data, L1.data), ('Q', Q.data, Q1.data), ('Abar', Abar.data, Abar1.data)):
+                if bad:
+                    break
+                why, w = cmp_dir(full, one, p)
+                if why:
+                    bad = nm + ': ' + why
+            if bad:
+                out['fails'].append({'sig': 'C11|mixed structure|eigh1|%s' % bad.split(':')[0], 'case': case, 'detail': {'direction': p, 'why': bad}})
+                break
     out['samples'] = [{'mixed_structure_cases': [c[0] for c in mixed_cases(u['seed'])][:4]}]
 
 
@@ -321,6 +362,10 @@ def run_unit(u):
             for (D, P) in DPS:
                 if D <= e.maxD:
                     check_entry(e, D, P, u['seed'], out)
+            # many directions (a kernel may process the direction axis in blocks): every direction against its own run
+            for (D, P) in (MANY_DP[u['tier']]):
+                if D <= e.maxD:
+                    check_entry_variant(e, D, P, u['seed'], out, 'dense')
         out['samples'] = [{'entry': u['names'][0], 'DP': DPS, 'base_points': 'different per direction'}]
     else:
         curves = [(3, 3)] if u['tier'] == 'quick' else [(2, 2), (3, 3), (4, 3)]
